@@ -40,3 +40,15 @@ package pluginregistry
 //@   ensures getPathValuesCalls == old(getPathValuesCalls) + 1 && lastGetPathValuesPrefix == pathPrefix
 //@   ensures checkFailures == old(checkFailures) + ite(err == nil, 0, 1)
 //@   fresh values
+
+// The document handed to Validate reaches the plugin whole: the chunks are consecutive, non-empty
+// windows of jsonData of at most chunkSize bytes and the stream is closed exactly at its end.
+//@ func (*ModelPluginInfo).Validate(p, ctx, jsonData) (err)
+//@   props C05
+//@   requires p != nil && p.Client != nil
+//@   requires streamArr == arrOf(jsonData) && streamOff == offOf(jsonData) && sentLen == 0 && chunksContiguous && maxChunkLen == 0
+//@   ensures {C05} chunks-are-the-document: closeCalls > old(closeCalls) ==> closeCalls == old(closeCalls) + 1 && closedAtLen == len(jsonData) && chunksContiguous && maxChunkLen <= 100000
+//@   ensures {C05} verdict: err == nil ==> closeCalls == old(closeCalls) + 1 && lastCloseOK && lastRespValid && closedAtLen == len(jsonData) && chunksContiguous
+//@   ensures {C05} rejection-is-an-error: closeCalls > old(closeCalls) && (!lastCloseOK || !lastRespValid) ==> err != nil
+//@   ensures {C05} one-stream: streamOpens == old(streamOpens) + 1
+//@   loop 1 invariant 0 <= position && position <= jsonLen && jsonLen == len(jsonData) && sentLen == position && chunksContiguous && maxChunkLen <= 100000 && closeCalls == old(closeCalls) && streamOpens == old(streamOpens) + 1
